@@ -538,6 +538,13 @@ func execC14(p *drv.Plan) *Out {
 			if v := w.AuditVersions("live", true); v != nil {
 				return v
 			}
+			if s.Op == drv.OpBadLoad {
+				// "... and leaves the tree usable": every read path of the working
+				// state, uncommitted changes included
+				if v := w.AuditWorking("C14", "C14.usable-after-failed-load", w.ProbeKeys()); v != nil {
+					return v
+				}
+			}
 			// ... and again after a clean restart (a second, read-only handle)
 			h := w.NewHandle(false, 0)
 			defer h.Close()
